@@ -305,4 +305,62 @@ theorem zRadial_diag [CharZero α] (pow : α → Nat → α) (n : Nat) (d : α) 
 
 end radial
 
+/-! ## central moments do not see a translation of the image together with its centre -/
+
+section shift
+variable {R : Type} [CommRing R]
+
+theorem dotFrom_shift (w : Nat → R) : ∀ (xs : List R) (k : Nat),
+    dotFrom w (k + 1) xs = dotFrom (fun i => w (i + 1)) k xs
+  | [], _ => by simp [dotFrom]
+  | x :: xs, k => by
+    simp only [dotFrom]
+    rw [dotFrom_shift w xs (k + 1)]
+
+theorem dotFrom_zeros (w : Nat → R) : ∀ (n k : Nat), dotFrom w k (List.replicate n (0 : R)) = 0
+  | 0, _ => by simp [dotFrom]
+  | n + 1, k => by
+    simp only [List.replicate_succ, dotFrom]
+    rw [dotFrom_zeros w n (k + 1)]
+    ring
+
+theorem dotFrom_congr {w v : Nat → R} (h : ∀ i, w i = v i) : ∀ (xs : List R) (k : Nat),
+    dotFrom w k xs = dotFrom v k xs
+  | [], _ => by simp [dotFrom]
+  | x :: xs, k => by
+    simp only [dotFrom]
+    rw [dotFrom_congr h xs (k + 1), h k]
+
+/-- a row of zeros on top and the centre moved down by one: the same moment -/
+theorem moments_shift_rows (rows : List (List R)) (n p0 p1 : Nat) (c0 c1 : R) :
+    moments (Nat.cast : Nat → R) (List.replicate n 0 :: rows) p0 p1 (c0 + 1) c1 =
+      moments Nat.cast rows p0 p1 c0 c1 := by
+  unfold moments
+  simp only [List.map_cons, dotFrom]
+  rw [dotFrom_zeros, dotFrom_shift, zero_mul, zero_add]
+  apply dotFrom_congr
+  intro i
+  congr 1
+  push_cast
+  ring
+
+/-- a column of zeros on the left and the centre moved right by one: the same moment -/
+theorem moments_shift_cols (rows : List (List R)) (p0 p1 : Nat) (c0 c1 : R) :
+    moments (Nat.cast : Nat → R) (rows.map fun r => (0 : R) :: r) p0 p1 c0 (c1 + 1) =
+      moments Nat.cast rows p0 p1 c0 c1 := by
+  unfold moments
+  rw [List.map_map]
+  congr 1
+  apply List.map_congr_left
+  intro r _
+  simp only [Function.comp, dotFrom]
+  rw [dotFrom_shift, zero_mul, zero_add]
+  apply dotFrom_congr
+  intro j
+  congr 1
+  push_cast
+  ring
+
+end shift
+
 end Mahotas.C19.Machine
